@@ -344,6 +344,7 @@ class BuildersProp(core.Prop):
             "encoding/position, near-clashes) x file text variants (plain, final newline; irregular texts compare "
             "model and code only); distinct by the whole description; non-trivial = at least one layout agent on "
             "a grid with more than one cell")
+    rule += ("; " + 'histories and representations: earlier builds of another layout in the same process, one layout file path rewritten per case, arrays in C / Fortran order and as transposed / negatively strided views, the extra_agents keyword omitted; a share of BIG layouts (8..13 x 10..14) and layouts with several hundred agents of one character')
     assumptions = [
         "agent ids f\"{name}{n}\" of different registered characters never coincide (names end in a non-digit): "
         "the model's ids are pairs (character, n)",
